@@ -118,6 +118,8 @@ def harnesses(tier):
             out.append(partition2(t, 2, 1, "real", special=True, timeout=60))
         out.append(partition3(t, "real"))
     slots = cat.slot()
+    if tier == "thorough":
+        slots = slots[::2]  # thorough tier is sized by wall time (see DESIGN.md 7.1)
     if tier == "quick":
         # a representative third: every slot once, children rotating through all primitives
         slots = [t for i, t in enumerate(slots) if i % 3 == 0]
